@@ -134,7 +134,7 @@ U('dyn_find', fam_dyn, 'Dyn_find', ['C05', 'C16', 'C17'], inline=['Item_deleted'
 U('dyn_ceil_log2', fam_dyn, 'Dyn_ceil_log2', ['C15', 'C17'], decls=['dyn_ghost'], insts=DYN_Q, spec=('dyn.spec',))
 U('dyn_max_size', fam_dyn, 'Dyn_max_size', ['C15', 'C17'], inline=['Dyn_ceil_log2'], decls=['dyn_ghost'], insts=DYN_Q, spec=('dyn.spec',))
 
-U('dyn_pairwise_merge', fam_dyn, 'Dyn_pairwise_merge', ['C15', 'C05', 'C17'], thorough_only_props=['C17'], inline=['Dyn_level', 'Dyn_pgm', 'Dyn_has_pgm', 'Dyn_max_fully_allocated_level'],
+U('dyn_pairwise_merge', fam_dyn, 'Dyn_pairwise_merge', ['C15', 'C05', 'C17'], thorough_only_props=['C17', 'C05'], inline=['Dyn_level', 'Dyn_pgm', 'Dyn_has_pgm', 'Dyn_max_fully_allocated_level'],
   assumed=['Dyn_merge', 'pgmv_copy_Item', 'PGMType_build'], decls=['dyn_ghost', 'dyn_merge_ghost', 'dyn_mergeview'], lemmas=['lemma_merge_fits'],
   insts=DYN_Q, thorough_insts=DYN_ALL, spec=('dyn.spec',), timeout=1800, partition=16, mem_gb=12, defines=['NLEV=4'], solver='kissat',
   assumptions=[DYN_NOTE, 'quick tier: at most 4 used levels above the buffer (NLEV=4); the thorough tier runs the same contract with NLEV=32 = the size of the levels vector (unit dyn_pairwise_merge_full)', 'size accounting of the merge cascade (lemma_merge_fits) is established by insert (proved there as the C15 capacity assertion)'])
